@@ -199,21 +199,22 @@ def run_unit(unit: dict, res: UnitResult) -> None:
         return
     from .. import dcheck, dsched as D
     D.install(D.repo_file(*FILES))
+    D.DEFAULT_MAX_STEPS = 50000      # runs of this check take < 1000 steps (evidence: steps_per_run_below); no progress within 50000 is reported
     if not dcheck.check_install(res):
         return
     if unit["mode"] == "dfs":
         P = HAND[unit["hand"]]
         res.note("kinds", P["kind"])
         name = "hand%d-%s" % (unit["hand"], P["kind"])
-        dcheck.explore(res, ID, name, scenario, P, "dfs", bound=unit["bound"], max_runs=unit["max_runs"])
-        dcheck.explore(res, ID, name, scenario, P, "hot", seed=unit["seed"], runs=unit["hot_runs"], hot=("in-action",))
+        dcheck.explore(res, ID, name, scenario, P, "dfs", bound=unit["bound"], max_runs=unit["max_runs"], on_failed="violation")
+        dcheck.explore(res, ID, name, scenario, P, "hot", seed=unit["seed"], runs=unit["hot_runs"], hot=("in-action",), on_failed="violation")
         return
     for pi in range(*unit["progs"]):
         P = gen_program(case_rng(unit["seed"], ID, unit["kind"], pi), unit["kind"])
         res.note("kinds", P["kind"])
         name = "gen%d-%s" % (pi, P["kind"])
-        dcheck.explore(res, ID, name, scenario, P, "random", seed=unit["seed"], runs=unit["runs"])
-        dcheck.explore(res, ID, name, scenario, P, "pct", seed=unit["seed"], runs=unit["runs"] // 2)
+        dcheck.explore(res, ID, name, scenario, P, "random", seed=unit["seed"], runs=unit["runs"], on_failed="violation")
+        dcheck.explore(res, ID, name, scenario, P, "pct", seed=unit["seed"], runs=unit["runs"] // 2, on_failed="violation")
 
 
 def replay(rep: dict, res: UnitResult) -> None:
@@ -222,4 +223,5 @@ def replay(rep: dict, res: UnitResult) -> None:
         return
     from .. import dcheck, dsched as D
     D.install(D.repo_file(*FILES))
+    D.DEFAULT_MAX_STEPS = 50000      # runs of this check take < 1000 steps (evidence: steps_per_run_below); no progress within 50000 is reported
     dcheck.replay(res, ID, scenario, rep)
